@@ -679,7 +679,7 @@ Section Generic.
   Definition edit_inside (o : op R) (st : dstate) : Prop :=
     match o with
     | OpSetState cs => Forall (fun x => inside x = true) cs
-    | OpSetStateFn f => Forall (fun x => inside x = true) (map f (chains R st))
+    | OpSetStateFn f => Forall (fun x => inside x = true) (mapi R f 0 (chains R st))
     | _ => True
     end.
 
@@ -732,7 +732,7 @@ Section Generic.
   Lemma edits_invalidate st :
     (forall cs, same_shape R st cs = true -> pdf_ready R (set_state R cs st) = false /\ chains R (set_state R cs st) = cs) /\
     (forall cs, same_shape R st cs = false -> set_state R cs st = st) /\
-    (forall f, pdf_ready R (set_state_fn R f st) = false /\ chains R (set_state_fn R f st) = map f (chains R st)) /\
+    (forall f, pdf_ready R (set_state_fn R f st) = false /\ chains R (set_state_fn R f st) = mapi R f 0 (chains R st)) /\
     pdf_ready R (clear_pdf R st) = false /\
     (forall vs, length vs = length (chains R st) -> pdf_ready R (set_pdf_values R vs st) = true /\ pdfv R (set_pdf_values R vs st) = vs) /\
     pdf_ready R (clear_hist R st) = pdf_ready R st /\ hist R (clear_hist R st) = [] /\ pdfh R (clear_hist R st) = [] /\ acc R (clear_hist R st) = 0.
